@@ -965,3 +965,119 @@ pub fn robot_redraw_family() -> Vec<String> {
     }
     out
 }
+
+// ---------------------------------------------------------------------------------------------
+// families added after the fifteenth round (appended)
+
+/// index reads and writes with fractional indexes just below and just above a whole number
+pub fn near_integer_index_family() -> Vec<String> {
+    let mut out = vec![];
+    for i in ["2.9999999999", "0.9999999999", "3 - 0.0000000001", "0.29 * 100 - 26", "1.0000000001", "3.0000000001", "2.5", "2.9999999999999996", "1 - 0.0000000001", "3.9999999999"] {
+        for (decl, _) in [("s <- [10, 20, 30]", "list"), ("s <- \"hey\"", "string")] {
+            out.push(format!("{decl}\nDISPLAY(\"r\")\nDISPLAY(s[{i}])\n"));
+            out.push(format!("s <- [10, 20, 30]\ni <- {i}\ns[i] <- \"X\"\nDISPLAY(s)\nDISPLAY(s[i] == \"X\")\nDISPLAY(REMOVE(s, i))\nINSERT(s, i, \"Y\")\nDISPLAY(s)\n"));
+        }
+    }
+    out
+}
+
+/// REPEAT with a count that is +infinity (or larger than any integer), left by BREAK or RETURN
+pub fn infinite_repeat_family() -> Vec<String> {
+    let mut out = vec![];
+    let pre = format!("INF <- 1{}\nHUGE <- 1{}\n", "0".repeat(309), "0".repeat(300));
+    for c in ["INF", "INF * 2", "HUGE * HUGE", "HUGE", "18446744073709551616", "9223372036854775808", "INF - 1"] {
+        out.push(format!("{pre}n <- 0\nREPEAT {c} TIMES {{\nn <- n + 1\nIF (n >= 3) {{\nBREAK\n}}\n}}\nDISPLAY(n)\n"));
+        out.push(format!("{pre}PROCEDURE f() {{\nn <- 0\nREPEAT {c} TIMES {{\nn <- n + 1\nIF (n >= 4) RETURN n\n}}\nRETURN \"fell through\"\n}}\nDISPLAY(f())\n"));
+        out.push(format!("{pre}n <- 0\nREPEAT {c} TIMES {{\nn <- n + 1\nIF (n < 3) CONTINUE\nBREAK\n}}\nDISPLAY(n)\n"));
+    }
+    out
+}
+
+/// library names called without (or with another) import: undefined, whatever the library offers elsewhere
+pub fn unimported_library_calls(reg: &[(String, String, usize)]) -> Vec<String> {
+    let mut out = vec![];
+    for (module, name, arity) in reg {
+        if module == "CORE" || module == "FS" || module == "ROBOT" || name == "SLEEP" || name == "INPUT_PROMPT" {
+            continue;
+        }
+        let args: Vec<String> = (0..*arity).map(|i| crate::gen::plausible_arg(module, name, i).to_string()).collect();
+        let other = reg.iter().find(|(m, n, _)| m == module && n != name).map(|(_, n, _)| n.clone());
+        out.push(format!("lst <- [1, 2]\nDISPLAY(\"before\")\nx <- {name}({})\nDISPLAY(\"after\")\n", args.join(", ").replace("mp", "lst").replace("rb", "lst")));
+        if let Some(o) = other {
+            out.push(format!("IMPORT \"{o}\" FROM MOD \"{module}\"\nlst <- [1, 2]\nDISPLAY(\"before\")\nx <- {name}({})\nDISPLAY(\"after\")\n", args.join(", ").replace("mp", "lst").replace("rb", "lst")));
+        }
+    }
+    out
+}
+
+/// words that become a keyword only through a Unicode case mapping (dotless i, long s, the Kelvin sign)
+pub fn case_mapping_words() -> Vec<String> {
+    let mut out = vec![];
+    for w in ["ıf", "ın", "elſe", "untıl", "tımes", "contınue", "falſe", "ımport", "ſ", "ı", "breaK", "\u{212a}", "mod\u{307}", "ﬁ", "ǆ", "Ǆ", "ǅ", "ß", "ẞ", "İF", "İf", "nuLL"] {
+        for ctx in ["@ <- 3\nDISPLAY(@)\n", "x <- [1]\nFOR EACH e @ x {\n}\n", "IF (TRUE) {\n} @ {\n}\n", "REPEAT 2 @ {\n}\n", "@", "x <- @", "@ (TRUE) {\n}\n"] {
+            out.push(ctx.replace('@', w));
+        }
+    }
+    out
+}
+
+/// IMPORT statements that break off at every point, the input ending right after the line break
+pub fn truncated_imports() -> Vec<String> {
+    let mut out = vec![];
+    for head in ["IMPORT", "IMPORT MOD", "IMPORT \"SQRT\"", "IMPORT \"SQRT\" FROM", "IMPORT \"SQRT\" FROM MOD", "IMPORT [", "IMPORT [\"A\"", "IMPORT [\"A\",", "IMPORT [\"A\"]", "IMPORT [\"A\"] FROM", "IMPORT [\"A\"] FROM MOD", "import mod", "EXPORT", "EXPORT PROCEDURE", "PROCEDURE", "PROCEDURE f", "PROCEDURE f(", "FOR", "FOR EACH", "FOR EACH x", "FOR EACH x IN", "REPEAT", "REPEAT 2", "REPEAT UNTIL", "IF", "IF (TRUE)", "IF (TRUE) x <- 1 ELSE", "RETURN", "x <-", "NOT"] {
+        for end in ["", "\n", "\n\n", " // c\n", "\r\n", ";", " \\\n", "\n\n\n\n"] {
+            out.push(format!("{head}{end}"));
+            out.push(format!("x <- 1\n{head}{end}"));
+        }
+    }
+    out
+}
+
+/// an invalid assignment target wrapped in n pairs of parentheses (whatever a diagnostic prints of it takes time
+/// linear in the text, not doubling with every pair)
+pub fn deep_invalid_targets() -> Vec<String> {
+    let mut out = vec![];
+    for depth in [1usize, 8, 16, 24, 30, 40, 64] {
+        for inner in ["x + 1", "x", "1", "f(x)"] {
+            out.push(format!("{}{inner}{} <- 1\n", "(".repeat(depth), ")".repeat(depth)));
+            out.push(format!("x <- 0\n{}{inner}{} + 1 <- 2\nDISPLAY(x)\n", "(".repeat(depth), ")".repeat(depth)));
+        }
+    }
+    out
+}
+
+/// texts of 255 ... 1100 bytes through the text procedures, with empty, short and long patterns
+pub fn long_text_family() -> Vec<String> {
+    let mut out = vec![];
+    for n in [255usize, 256, 257, 1000, 1100] {
+        for unit in ["a", "ab ", "é"] {
+            let reps = n / unit.len() + 1;
+            for p in ["\"\"", "\"a\"", "\" \"", "s", "\"zz\""] {
+                out.push(format!("IMPORT MOD \"STRING\"\ns <- \"\"\nREPEAT {reps} TIMES {{\ns <- s + \"{unit}\"\n}}\nDISPLAY(LENGTH(s))\np <- {p}\nparts <- SPLIT(s, p)\nDISPLAY(LENGTH(parts))\nDISPLAY(JOIN(parts, p) == s)\nDISPLAY(LENGTH(REPLACE(s, p, \"-\")))\nDISPLAY(CONTAINS(s, p))\nDISPLAY(LENGTH(TO_CHAR_ARRAY(s)))\nDISPLAY(LENGTH(TO_UPPER(s)))\nDISPLAY(LENGTH(TRIM(s)))\nDISPLAY(SUBSTRING(s, LENGTH(s) - 1, 5))\n"));
+            }
+        }
+    }
+    out
+}
+
+/// call tokens of a module and of its importer at the same byte offset (a sweep of the importer's layout)
+pub fn offset_collision_family() -> Vec<(String, String)> {
+    let lib = "EXPORT PROCEDURE sq(l) {\nRETURN LENGTH(l) * LENGTH(l)\n}\nEXPORT PROCEDURE first(l) {\nRETURN l[1]\n}\nDISPLAY(\"module top-level\")\n".to_string();
+    let mut out = vec![];
+    for k in 0..48 {
+        out.push((lib.clone(), format!("IMPORT MOD \"lib.ap\"\n//{}\nDISPLAY(sq([1, 2]))\nDISPLAY(LENGTH([1, 2, 3]))\nDISPLAY(first([7]))\n", "-".repeat(k))));
+    }
+    out
+}
+
+/// numeric texts longer than any printed double
+pub fn long_numeric_texts() -> Vec<String> {
+    let mut out = vec![];
+    for t in ["0000000000000000000000000000012", "1.0000000000000000000000000000", "123456789012345678901234567890", "0.000000000000000000000000000001", "-0000000000000000000000001.5", "+0000000000000000000000001.5", "1000000000000000000000000", "999999999999999999999999.9999999999", "  1234567890123456789012345  ", "1e000000000000000000000000005"] {
+        out.push(format!("IMPORT MOD \"STRING\"\nt <- \"{t}\"\nDISPLAY(LENGTH(t))\nDISPLAY([TO_NUMBER(t)])\nDISPLAY(TO_NUMBER(t) == NULL)\n"));
+    }
+    for x in ["1000000000000000000000000", "1000000000000000000000000 * 1000000", "1 / 1000000000000000000000000", "123456789 / 1000000000000000000000000000000", "0.1 * 0.1 * 0.1 * 0.1 * 0.1 * 0.1 * 0.1 * 0.1 * 0.1 * 0.1 * 0.1 * 0.1 * 0.1 * 0.1 * 0.1 * 0.1 * 0.1 * 0.1 * 0.1 * 0.1 * 0.1 * 0.1 * 0.1 * 0.1 * 0.1"] {
+        out.push(format!("IMPORT MOD \"STRING\"\nx <- {x}\nt <- \"\" + x\nDISPLAY(LENGTH(t) > 24)\nDISPLAY(TO_NUMBER(t) == x)\nDISPLAY(TO_NUMBER(t) == NULL)\n"));
+    }
+    out
+}
